@@ -23,6 +23,8 @@ def unadjusted_strat(g, p, used, kind):
         pool = gen.STRATA_POOL.get(name, ["g1", "g2", "g3"])
         strata = pool[: r.randint(2, 3)]
         scomps = list(comps) if (kind == "full") else sorted(r.sample(comps, r.randint(1, len(comps) - 1)), key=comps.index)
+        if len(scomps) > 1 and r.random() < 0.5:
+            scomps = r.sample(scomps, len(scomps))        # listed in another order than the model's
     n = len(strata)
     w = [r.choice([1, 1, 2, 3]) for _ in strata]
     tot = sum(w)
